@@ -144,6 +144,7 @@ func checkC02(w *World, r *Report) {
 
 	// R7: documented panics only; modulo indexing on non-empty lists -----------
 	checkPanics(w, r, "C02.R7")
+	ruleStateInitialised(w, r, "C02")
 	checkModuloIndex(w, r, "C02.R7m")
 }
 
